@@ -1,6 +1,8 @@
 package main
 
 import (
+	"golang.org/x/tools/go/ssa"
+	"go/constant"
 	"fmt"
 	"go/ast"
 	"go/token"
@@ -16,8 +18,8 @@ func init() {
 }
 
 func ruleFmt(c *Ctx) {
-	p := c.pkg("interp")
-	info := p.TypesInfo
+	_ = c.pkg("interp")
+	_ = c.pkg("interp").TypesInfo
 	pf := c.funcDecl("interp", "interp.parseFmtTypes")
 	sf := c.funcDecl("interp", "interp.sprintf")
 	if pf == nil || sf == nil {
@@ -164,49 +166,85 @@ func ruleFmt(c *Ctx) {
 		c.check(sem.charOK, "char", sf.Pos(), "%c classifies its argument with isTrueStr before anything else (numeric strings are numbers)", "%c does not use isTrueStr to decide between a string and a number: a numeric input field such as \"65\" prints its first character instead of the character with that code")
 	}
 
-	// FASTPATH in value.str
-	vs := c.funcDecl("interp", "value.str")
-	if vs == nil {
-		c.undecided("fastpath", token.NoPos, "value.str not found")
-		return
-	}
-	fastOK, found := false, false
-	ast.Inspect(vs.Body, func(n ast.Node) bool {
-		is, ok := n.(*ast.IfStmt)
-		if !ok {
-			return true
+	// FASTPATH: every strconv.FormatFloat(x, verb, prec, 64) with constant verb and precision in package interp is
+	// reached only where the format in force is known to be exactly "%.<prec><verb>": a dominating test of the format
+	// string against that constant, or of a boolean struct field whose every write is such a comparison (the test
+	// made once when the format is set)
+	{
+		var vpos token.Pos
+		if vs := c.funcDecl("interp", "value.str"); vs != nil {
+			vpos = vs.Pos()
 		}
-		var ff *ast.CallExpr
-		ast.Inspect(is.Body, func(m ast.Node) bool {
-			if call, ok := m.(*ast.CallExpr); ok {
-				if se, ok := call.Fun.(*ast.SelectorExpr); ok && se.Sel.Name == "FormatFloat" {
-					ff = call
+		found, fastOK := 0, true
+		for _, fn := range c.srcFuncs("interp") {
+			fn := fn
+			allInstrs(fn, func(in ssa.Instruction) {
+				call, ok := in.(*ssa.Call)
+				if !ok {
+					return
 				}
-			}
-			return true
-		})
-		if ff == nil {
-			return true
+				cal := call.Call.StaticCallee()
+				if cal == nil || cal.Pkg == nil || cal.Pkg.Pkg.Path() != "strconv" || cal.Name() != "FormatFloat" || len(call.Call.Args) != 4 {
+					return
+				}
+				vk, ok1 := call.Call.Args[1].(*ssa.Const)
+				pk, ok2 := call.Call.Args[2].(*ssa.Const)
+				if !ok1 || !ok2 || vk.Value == nil || pk.Value == nil {
+					return
+				}
+				vv, _ := constant.Int64Val(vk.Value)
+				pv, _ := constant.Int64Val(pk.Value)
+				want := fmt.Sprintf("%%.%d%c", pv, rune(vv))
+				found++
+				vpos = in.Pos()
+				isWant := func(v ssa.Value) bool {
+					k, ok := v.(*ssa.Const)
+					return ok && k.Value != nil && k.Value.Kind() == constant.String && constant.StringVal(k.Value) == want
+				}
+				cmpWant := func(v ssa.Value) bool {
+					bo, ok := v.(*ssa.BinOp)
+					return ok && bo.Op == token.EQL && (isWant(bo.X) || isWant(bo.Y))
+				}
+				condMeans := func(cnd ssa.Value) bool {
+					if cmpWant(cnd) {
+						return true
+					}
+					if fv := structFieldRead(cnd); fv != nil {
+						ws := structFieldWrites(c, "interp", fv)
+						if len(ws) == 0 {
+							return false
+						}
+						for _, w := range ws {
+							if !cmpWant(w) {
+								return false
+							}
+						}
+						return true
+					}
+					return false
+				}
+				guarded := false
+				for _, g := range fn.Blocks {
+					if len(g.Instrs) == 0 || !g.Dominates(in.Block()) || g == in.Block() {
+						continue
+					}
+					ifi, ok := g.Instrs[len(g.Instrs)-1].(*ssa.If)
+					if !ok || !condMeans(ifi.Cond) {
+						continue
+					}
+					if !reachableAvoiding(g.Succs[1], g)[in.Block()] {
+						guarded = true
+					}
+				}
+				if !guarded {
+					fastOK = false
+				}
+			})
 		}
-		found = true
-		be, ok := is.Cond.(*ast.BinaryExpr)
-		if !ok || be.Op != token.EQL {
-			return true
+		if found == 0 {
+			c.undecided("fastpath", vpos, "no strconv.FormatFloat call with constant verb and precision found in package interp")
+		} else {
+			c.check(fastOK, "fastpath", vpos, "the strconv fast path is taken only for the exact format whose verb and precision it hard-codes", "value.str's strconv.FormatFloat fast path is not guarded by equality with the exact constant format it implements: other CONVFMT/OFMT values (e.g. %.10g) would be formatted with the wrong precision")
 		}
-		tv, ok := info.Types[be.Y]
-		if !ok || tv.Value == nil {
-			return true
-		}
-		lit := strings.Trim(tv.Value.ExactString(), `"`)
-		// "%.Ng" must match FormatFloat(x, 'g', N, 64)
-		if len(ff.Args) == 4 {
-			verb := strings.Trim(types.ExprString(ff.Args[1]), "'")
-			prec := types.ExprString(ff.Args[2])
-			if lit == "%."+prec+verb {
-				fastOK = true
-			}
-		}
-		return true
-	})
-	c.check(found && fastOK, "fastpath", vs.Pos(), "the strconv fast path is taken only for the exact format whose verb and precision it hard-codes", "value.str's strconv.FormatFloat fast path is not guarded by equality with the exact constant format it implements: other CONVFMT/OFMT values (e.g. %.10g) would be formatted with the wrong precision")
+	}
 }
